@@ -277,7 +277,7 @@ Definition rb_has_end (r : rebuilt) : bool := match rb_arr r with Some _ => true
 
 Lemma replay_tour_nil P k t : replay_tour P k t = [] -> exists r, rebuild P t = Some r /\
   act_checks k (rb_facts r) (replay (pdur P) (rb_acts r)) = [] /\
-  stop_checks k t (rb_facts r) (replay (pdur P) (rb_acts r)) (replay_loads (rb_has_end r) (rb_acts r))
+  stop_checks k t (rb_facts r) (replay (pdur P) (rb_acts r)) (replay_loads_x (rb_has_end r) (rb_acts r))
               (replay_cumdist (pdist P) (rb_acts r)) = [] /\
   stat_checks k (replay_stat P (rb_vt r) (rb_acts r)) (to_stat t) = [].
 Proof.
@@ -303,18 +303,21 @@ Proof.
 Qed.
 
 Lemma feasible_viol_nil P k t r : rebuild P t = Some r -> feasible_viol P k t = [] ->
-  feasible (pdur P) (rb_veh r) (rb_acts r) = true
+  feasible_x (pdur P) (rb_veh r) (rb_acts r) = true
   /\ le_opt (tour_legs (pdist P) (rb_acts r)) (vt_maxdist (rb_vt r)) = true
   /\ le_opt (replay_duration (pdur P) (rb_acts r)) (vt_maxdur (rb_vt r)) = true
   /\ le_opt (Z.of_nat (length (rb_jobs r))) (vt_toursize (rb_vt r)) = true.
-Proof. unfold feasible_viol. intros ->. cbv zeta. rewrite !app_nil_iff, !if_nil_iff. tauto. Qed.
+Proof.
+  unfold feasible_viol, feasible_x. intros ->. cbv zeta. rewrite !app_nil_iff, !if_nil_iff.
+  intros (H1 & H2 & H3 & H4 & H5 & H6 & H7). split; [rewrite H1, H2; reflexivity|]. auto.
+Qed.
 
 Lemma rebuild_vt P t r : rebuild P t = Some r -> In (rb_vt r) (pr_fleet P) /\ vt_id (rb_vt r) = to_type t.
 Proof.
   unfold rebuild, shift_of, vtype_of. destruct (find _ (pr_fleet P)) as [vt|] eqn:Hf; [|discriminate].
   destruct (nth_error (vt_shifts vt) (to_shift t)) as [sh|]; [|discriminate]. cbv zeta.
   destruct (split_tour _ (flat_tour t)) as [[[d js] e]|]; [|discriminate].
-  destruct (match_all P js) as [ms|]; [|discriminate]. intros H. injection H as <-. cbn [rb_vt].
+  destruct (match_all P sh js) as [ms|]; [|discriminate]. intros H. injection H as <-. cbn [rb_vt].
   apply find_some in Hf. destruct Hf as [Hin Hb]. split; [exact Hin|].
   apply andb_true_iff in Hb. destruct Hb as [Hb _]. apply andb_true_iff in Hb. destruct Hb as [Hb _].
   apply Z.eqb_eq. exact Hb.
@@ -498,40 +501,40 @@ Qed.
 (* ------------------------------------------------------------------ shape of a rebuilt tour; tour size *)
 Lemma split_tour_spec has_end l d js e : split_tour has_end l = Some (d, js, e) ->
   l = d :: js ++ (match e with Some x => [x] | None => [] end) /\ fa_kind d = 10
-  /\ forallb (fun a => is_job_kind (fa_kind a)) js = true /\ (forall x, e = Some x -> fa_kind x = 11).
+  /\ forallb (fun a => is_mid_kind (fa_kind a)) js = true /\ (forall x, e = Some x -> fa_kind x = 11).
 Proof.
   unfold split_tour. destruct l as [|d0 r]; [discriminate|].
   destruct (fa_kind d0 =? 10) eqn:Hd; cbn [negb]; [|discriminate].
   destruct has_end.
   - destruct (rev r) as [|e0 jr] eqn:Hr; [discriminate|].
-    destruct ((fa_kind e0 =? 11) && forallb (fun a => is_job_kind (fa_kind a)) jr) eqn:Hb; [|discriminate].
+    destruct ((fa_kind e0 =? 11) && forallb (fun a => is_mid_kind (fa_kind a)) jr) eqn:Hb; [|discriminate].
     intros H. injection H as <- <- <-. apply andb_true_iff in Hb. destruct Hb as [He Hj].
     assert (Hrr : r = rev jr ++ [e0]). { rewrite <- (rev_involutive r), Hr. reflexivity. }
     split; [rewrite Hrr; reflexivity|]. split; [apply Z.eqb_eq; exact Hd|]. split.
     + rewrite forallb_forall in *. intros a Ha. apply Hj. apply (proj2 (in_rev jr a)). exact Ha.
     + intros x Hx. injection Hx as <-. apply Z.eqb_eq. exact He.
-  - destruct (forallb (fun a => is_job_kind (fa_kind a)) r) eqn:Hj; [|discriminate]. intros H. injection H as <- <- <-.
+  - destruct (forallb (fun a => is_mid_kind (fa_kind a)) r) eqn:Hj; [|discriminate]. intros H. injection H as <- <- <-.
     split; [rewrite app_nil_r; reflexivity|]. split; [apply Z.eqb_eq; exact Hd|]. split; [exact Hj|].
     intros x Hx. discriminate Hx.
 Qed.
 
-Lemma match_all_fst P l : forall ms, match_all P l = Some ms -> map fst ms = l.
+Lemma match_all_fst P sh l : forall ms, match_all P sh l = Some ms -> map fst ms = l.
 Proof.
   induction l as [|a r IH]; intros ms; cbn [match_all].
   - intros H. injection H as <-. reflexivity.
-  - destruct (match_act P a) as [m|]; [|discriminate]. destruct (match_all P r) as [ms'|]; [|discriminate].
+  - destruct (match_act P sh a) as [m|]; [|discriminate]. destruct (match_all P sh r) as [ms'|]; [|discriminate].
     intros H. injection H as <-. cbn [map fst]. rewrite (IH ms' eq_refl). reflexivity.
 Qed.
 
 Lemma rebuild_spec P t r : rebuild P t = Some r ->
   flat_tour t = rb_facts r /\ fa_kind (rb_dep r) = 10
-  /\ forallb (fun a => is_job_kind (fa_kind a)) (map fst (rb_jobs r)) = true
+  /\ forallb (fun a => is_mid_kind (fa_kind a)) (map fst (rb_jobs r)) = true
   /\ (forall x, rb_arr r = Some x -> fa_kind x = 11).
 Proof.
   unfold rebuild. destruct (shift_of P t) as [[vt sh]|]; [|discriminate]. cbv zeta.
   destruct (split_tour _ (flat_tour t)) as [[[d js] e]|] eqn:Hsp; [|discriminate].
-  destruct (match_all P js) as [ms|] eqn:Hm; [|discriminate]. intros H. injection H as <-.
-  unfold rb_facts. cbn [rb_dep rb_jobs rb_arr]. rewrite (match_all_fst _ _ _ Hm).
+  destruct (match_all P sh js) as [ms|] eqn:Hm; [|discriminate]. intros H. injection H as <-.
+  unfold rb_facts. cbn [rb_dep rb_jobs rb_arr]. rewrite (match_all_fst _ _ _ _ Hm).
   destruct (split_tour_spec _ _ _ _ _ Hsp) as (H1 & H2 & H3 & H4). auto.
 Qed.
 
@@ -541,10 +544,15 @@ Proof.
   destruct H as [H1 H2]. rewrite H1, (IH H2). reflexivity.
 Qed.
 
-Lemma rebuild_job_acts P t r : rebuild P t = Some r -> job_acts t = map fst (rb_jobs r).
+Lemma filter_len_le {A} (p : A -> bool) l : (length (filter p l) <= length l)%nat.
+Proof. induction l as [|x r IH]; cbn [filter length]; [lia|]. destruct (p x); cbn [length]; lia. Qed.
+
+(* the job activities of a tour are among the rebuilt middle activities (the others are its reload activities) *)
+Lemma rebuild_job_acts P t r : rebuild P t = Some r ->
+  job_acts t = filter (fun a => is_job_kind (fa_kind a)) (map fst (rb_jobs r)).
 Proof.
   intros Hr. destruct (rebuild_spec _ _ _ Hr) as (H1 & H2 & H3 & H4). unfold job_acts. rewrite H1. unfold rb_facts.
-  cbn [filter]. rewrite H2. change (is_job_kind 10) with false. cbv iota. rewrite filter_app, (filter_all _ _ H3).
+  cbn [filter]. rewrite H2. change (is_job_kind 10) with false. cbv iota. rewrite filter_app.
   destruct (rb_arr r) as [x|]; [|cbn [filter]; apply app_nil_r].
   cbn [filter]. rewrite (H4 x eq_refl). change (is_job_kind 11) with false. cbv iota. apply app_nil_r.
 Qed.
@@ -558,7 +566,8 @@ Proof.
   destruct (upd_type_found (to_type t) (set_toursize (Z.of_nat (length (job_acts t)) - 1)) (pr_fleet P) (rb_vt r)
                            (fun v => eq_refl) Hin Hid) as [v0 Hv0].
   rewrite Hv0 in Hd. cbn [set_toursize vt_toursize le_opt] in Hd. apply Z.leb_le in Hd.
-  rewrite (rebuild_job_acts _ _ _ Hr), map_length in Hd. lia.
+  rewrite (rebuild_job_acts _ _ _ Hr) in Hd.
+  pose proof (filter_len_le (fun a => is_job_kind (fa_kind a)) (map fst (rb_jobs r))) as Hle. rewrite map_length in Hle. lia.
 Qed.
 
 (* ------------------------------------------------------------------ all proved classes at once *)
